@@ -1,47 +1,71 @@
-(* C01 (iv) - proofs about the generated xmm save/restore pair *)
+(* C01 (iv) - proofs about the generated save/restore pairs *)
 From Coq Require Import ZArith List Bool Lia.
 Require Import UV.C01.Isa UV.Gen.Stubs UV.C01.ArchCtx.
 Import ListNotations.
 Local Open Scope Z_scope.
 
-(* (iv) the generated save/restore pair gives back both halves of xmm0..xmm7, whatever ran in between
-   and whatever the context buffer held *)
-Lemma arch_context_roundtrip (x : xfile) (c0 : Z -> Z) (clobber : xfile) (r : nat) :
-  (r < 8)%nat ->
-  fst (arch_roundtrip_now x c0 clobber r) = fst (x r) /\
-  snd (arch_roundtrip_now x c0 clobber r) = snd (x r).
+Lemma yreg_eq (a b : yreg) :
+  fst (fst a) = fst (fst b) -> snd (fst a) = snd (fst b) ->
+  fst (snd a) = fst (snd b) -> snd (snd a) = snd (snd b) -> a = b.
+Proof. destruct a as [[? ?] [? ?]], b as [[? ?] [? ?]]; cbn; congruence. Qed.
+
+(* with the ymm state enabled the generated AVX pair gives back all 256 bits of ymm0..ymm7, whatever ran
+   in between and whatever the context buffer held *)
+Lemma arch_context_roundtrip_avx (x : yfile) (c0 : Z -> Z) (clobber : yfile) (r : nat) :
+  (r < 8)%nat -> arch_roundtrip_now true x c0 clobber r = x r.
 Proof.
   intro H.
-  do 8 (destruct r as [|r]; [vm_compute; split; reflexivity|]).
+  do 8 (destruct r as [|r]; [apply yreg_eq; vm_compute; reflexivity|]).
   lia.
 Qed.
 
-(* the pair as it was before the fix (movsd both ways): low halves survive ... *)
-Lemma arch_context_legacy_low (x : xfile) (c0 : Z -> Z) (clobber : xfile) (r : nat) :
-  (r < 8)%nat -> fst (arch_roundtrip_legacy x c0 clobber r) = fst (x r).
+(* without it, the SSE pair gives back bits 0-127 of xmm0..xmm7 - all the state there is *)
+Lemma arch_context_roundtrip_sse (x : yfile) (c0 : Z -> Z) (clobber : yfile) (r : nat) :
+  (r < 8)%nat -> fst (arch_roundtrip_now false x c0 clobber r) = fst (x r).
+Proof.
+  intro H.
+  do 8 (destruct r as [|r]; [apply injective_projections; vm_compute; reflexivity|]).
+  lia.
+Qed.
+
+(* registers a pair does not load keep whatever the code in between left there *)
+Lemma arch_roundtrip_untouched (avx : bool) (x : yfile) (c0 : Z -> Z) (clobber : yfile) (r : nat) :
+  (8 <= r)%nat -> arch_roundtrip_now avx x c0 clobber r = clobber r.
+Proof.
+  intro H. do 8 (destruct r as [|r]; [lia|]).
+  destruct avx; apply yreg_eq; vm_compute; reflexivity.
+Qed.
+
+(* the SSE pair on a machine whose ymm state is live (the code before fix C01-5): bits 128-255 are lost *)
+Lemma arch_context_sse_only_refuted :
+  exists (x : yfile) c0 clobber r, (r < 8)%nat /\ snd (arch_roundtrip_sse_only x c0 clobber r) <> snd (x r).
+Proof.
+  exists (fun _ => ((1, 2), (3, 4))), (fun _ => 0), (fun _ => ((0, 0), (0, 0))), 0%nat. split; [lia|].
+  vm_compute. discriminate.
+Qed.
+
+(* the pair as it was before fix C01-1 (movsd both ways): bits 0-63 survive, bits 64-127 are zeroed *)
+Lemma arch_context_legacy_low (x : yfile) (c0 : Z -> Z) (clobber : yfile) (r : nat) :
+  (r < 8)%nat -> fst (fst (arch_roundtrip_legacy x c0 clobber r)) = fst (fst (x r)).
 Proof.
   intro H.
   do 8 (destruct r as [|r]; [vm_compute; reflexivity|]).
   lia.
 Qed.
-(* ... but the high halves are zeroed: a __m128d / __float128 argument is destroyed *)
 Lemma arch_context_legacy_refuted :
-  exists (x : xfile) c0 clobber r, (r < 8)%nat /\ snd (arch_roundtrip_legacy x c0 clobber r) <> snd (x r).
+  exists (x : yfile) c0 clobber r, (r < 8)%nat /\ snd (fst (arch_roundtrip_legacy x c0 clobber r)) <> snd (fst (x r)).
 Proof.
-  exists (fun _ => (3, 7)), (fun _ => 0), (fun _ => (0, 0)), 0%nat. split; [lia|]. vm_compute. discriminate.
+  exists (fun _ => ((3, 7), (0, 0))), (fun _ => 0), (fun _ => ((0, 0), (0, 0))), 0%nat. split; [lia|]. vm_compute. discriminate.
 Qed.
 
-
-(* registers the pair does not load keep whatever the code in between left there *)
-Lemma arch_roundtrip_upper (x : xfile) (c0 : Z -> Z) (clobber : xfile) (r : nat) :
-  (8 <= r)%nat -> arch_roundtrip_now x c0 clobber r = clobber r.
+(* the 128-bit view used by the stub machine, for either kind of machine *)
+Lemma arch_roundtrip_lower (avx : bool) (x : xfile) (c0 : Z -> Z) (clobber : xfile) (r : nat) :
+  (r < 8)%nat -> arch_roundtrip128 avx x c0 clobber r = x r.
 Proof.
-  intro H. do 8 (destruct r as [|r]; [lia|]). vm_compute. reflexivity.
+  intro H. unfold arch_roundtrip128. destruct avx.
+  - now rewrite arch_context_roundtrip_avx.
+  - now rewrite arch_context_roundtrip_sse.
 Qed.
-
-Lemma arch_roundtrip_lower (x : xfile) (c0 : Z -> Z) (clobber : xfile) (r : nat) :
-  (r < 8)%nat -> arch_roundtrip_now x c0 clobber r = x r.
-Proof.
-  intro H. destruct (arch_context_roundtrip x c0 clobber r H) as [H1 H2].
-  rewrite (surjective_pairing (arch_roundtrip_now x c0 clobber r)), (surjective_pairing (x r)). congruence.
-Qed.
+Lemma arch_roundtrip_upper (avx : bool) (x : xfile) (c0 : Z -> Z) (clobber : xfile) (r : nat) :
+  (8 <= r)%nat -> arch_roundtrip128 avx x c0 clobber r = clobber r.
+Proof. intro H. unfold arch_roundtrip128. now rewrite arch_roundtrip_untouched. Qed.
